@@ -2,7 +2,7 @@ SPEC = dict(
     props_file="Props/C23.v",
     level="proof",
     observers=[dict(cmd="obs_sentinel", imports=["Model.Sentinel"], case_type="Sentinel.case", check="Sentinel.check_case",
-                    n={"quick": 360, "thorough": 8000}, shard=60)],
+                    n={"quick": 240, "thorough": 8000}, shard=60)],
     rule="deployments of 2-3 data nodes and 1-4 sentinels (one known only through other sentinels' answers); sentinels down, reporting a "
          "stale / wrong / dead master, answering get-master-addr-by-name with nil, an empty or a one-element array, failing SENTINEL sentinels / "
          "replicas, replicas flagged s-down; data nodes down or answering ROLE with an error, an empty array, 'sentinel', or the opposite role; "
